@@ -80,6 +80,36 @@ def l1_mutants(rep):
         rep.extra["mutants_killed"].append(m)
 
 
+def apalache_inductive(rep):
+    """Unbounded histories: Apalache checks that HeapWellFormed is an inductive invariant of the (recursion-free,
+    typed) restatement spec/apalache/ContinuumInd.tla; a mutated copy (copy drops the categories) must fail."""
+    import re
+    import shutil
+    import subprocess
+    from .common import SPEC, scratch
+    if shutil.which("apalache-mc") is None:
+        rep.extra["apalache_inductive"] = "apalache-mc not available"
+        return
+    work = scratch() / "apalache"
+    work.mkdir(exist_ok=True)
+    src = (SPEC / "apalache" / "ContinuumInd.tla").read_text()
+    (work / "ContinuumInd.tla").write_text(src)
+    mut = src.replace("!.cats = LabelsInUse(heap[o]) \\cup extra]]", "!.cats = extra]]").replace("MODULE ContinuumInd ", "MODULE ContinuumIndMut ")
+    (work / "ContinuumIndMut.tla").write_text(mut)
+    out = {}
+    for name, module, args in (("base", "ContinuumInd", ["--init=Init", "--length=0"]), ("step", "ContinuumInd", ["--init=IndInit", "--length=1"]),
+                               ("mutant", "ContinuumIndMut", ["--init=IndInit", "--length=1"])):
+        p = subprocess.run(["timeout", "600", "apalache-mc", "check", "--inv=IndInv", f"--out-dir={work}/out"] + args + [f"{module}.tla"],
+                           cwd=str(work), stdout=subprocess.PIPE, stderr=subprocess.STDOUT, text=True)
+        m = re.search(r"The outcome is: (\w+)", p.stdout)
+        out[name] = m.group(1) if m else f"exit {p.returncode}"
+    rep.extra["apalache_inductive"] = out
+    if out["base"] == "Error" or out["step"] == "Error":
+        raise MachineryError(f"HeapWellFormed is not inductive in ContinuumInd.tla: {out}")
+    if out["base"] == "NoError" and out["step"] == "NoError" and out["mutant"] == "Error":
+        rep.extra.setdefault("mutants_killed", []).append("ContinuumInd(Apalache):copy_drops_cats")
+
+
 # ----------------------------------------------------------------------------- L2
 def _key(heapjson):
     return json.dumps(heapjson, sort_keys=True)
@@ -227,6 +257,7 @@ def run(tier, rep):
     rep.assumptions += ["float times and strings are compared through their rank (Python sort order = library order)",
                         "sortedcontainers' SortedSet/SortedDict implement their documented contract"]
     l1_mutants(rep)
+    apalache_inductive(rep)
     if tier == "quick":
         l1(rep, 5, UNIV_A)
         l1(rep, 4, UNIV_B)
